@@ -13,6 +13,10 @@ CHECKS = {
    text="All 7.5e8 token strings of <=6 tokens (thorough: <=7) over the 30-token alphabet through Interface::run with a bounded writer, shorter strings with five more writers, all <=3-unit query messages with every writer capacity 0..=64, and process::<N> for N in 1..=16,31..33,64,65 (thorough: up to 128) over message-pool streams and all short token strings with all compositions into reads (short streams) or <=2 cuts: no panic, run returns a suffix, no read into an empty buffer, hook invariant proc_offset<=read_offset<=N, termination only through the transport error, watchdog for non-consuming loops.",
    note="Handlers of the harness never panic; executor polls unconditionally (no lost wake-ups modelled); the random/coverage-guided part of the property's quantifier is outside this technique and not claimed.",
    technique="bounded exhaustive enumeration of inputs, writer capacities, buffer sizes and read chunkings on the real code (stateless model checking)"),
+ "C07": dict(engine="env-enum+env-bfs",
+   text="For every stream of <=3 messages from a 16-message pool (sound, each fault kind, embedded newlines, empty, unterminated, messages of N-1/N/N+1 bytes, alignment pads) and 8 (quick) / 18 (thorough) buffer sizes, the real process future is executed under every composition of the stream into reads (short streams), every chunking with <=2-3 cuts, regular chunkings and inserted zero-length reads, and under every Pending pattern with <=1 (quick) / <=2 (thorough) suspended futures; all observations must equal the one-byte-per-read observation and, when every message fits and is single-newline, the run-per-message observation. In addition a breadth-first search over read histories, merged on (position, loop state from the hook, observation so far), explores every read size 0..=free at every state for streams up to 4N bytes and requires all terminal states of a stream to carry the same observation.",
+   note="Merging relies on the hook exposing all loop-carried variables of process (argued in DESIGN.md 3.4); the un-merged enumeration does not. Executor polls unconditionally (no lost wake-ups modelled).",
+   technique="explicit-state breadth-first search over the real process future (state merging on hooked loop state) plus exhaustive enumeration of read chunkings and deviation-bounded Pending patterns"),
  "C12": dict(engine="lex-sweep",
    text="Every token string x over a 30-token class-representative alphabet up to 5 (quick) / 6 (thorough) tokens, from four start nodes, is parsed by the real parser::parse; accepted units are re-parsed with every continuation of up to 2-3 tokens, rejected newline-terminated inputs likewise, and Incomplete verdicts are related to the verdicts of all byte prefixes. Exhaustive within these bounds; nothing is sampled.",
    note="Assumes the alphabet is class-representative for the parser's byte predicates (DESIGN.md 3.2); continuations bounded to 3 tokens; trusts rustc and the harness's verdict comparison.",
@@ -23,6 +27,7 @@ LEVEL = {}  # property -> category override
 ENGINES = [
  {"name": "lex-sweep", "path": "harness/mc/src/lex.rs", "kind_free_text": "stateless exhaustive enumeration of all token strings up to a length bound, executed on the real parser / run"},
  {"name": "msg-enum", "path": "harness/mc/src/spec/msg.rs", "kind_free_text": "exhaustive enumeration of structured messages and message histories, executed on the real run/process, compared with a text-level reference model"},
+ {"name": "env-bfs", "path": "harness/mc/src/bin/c07.rs", "kind_free_text": "explicit-state BFS over read histories of the real process future, states merged on (stream position, hooked loop state, observation digest), re-execution from the initial state along the recorded history"},
  {"name": "env-enum", "path": "harness/mc/src/env.rs", "kind_free_text": "scripted transport: all compositions of a stream into reads, zero-length reads, Pending patterns up to a deviation bound, a fault at every call index"},
 ]
 
